@@ -398,3 +398,4 @@ def exact_laundering(res, P, cfgname, rid):
 
 LEVEL = LEVEL + ' Also (R06.4) the f32 / f64 encode kernels and the to_fNN splits agree structurally, (R06.5) every half test compares a remainder with the divisor it came from, (R06.6) IBig `>>` (flooring) appears only at reviewed exact sites.'
 TECHNIQUE = 'impl-table lattice rule for infallible From; dominance of shifted-out-bit tests; sibling skeleton agreement (f32 ~ f64); half-test pairing by backward slices; reviewed inventory of flooring shifts'
+LEVEL = LEVEL + " Also (R06.4) all f32 / f64 sibling functions have the same statement skeleton; (R06.7) the encoders' range thresholds are MAX_EXP and MIN_EXP - 2*MANT_DIG; (R06.8) no Exact(..) launders a .value()."
